@@ -123,8 +123,11 @@ Print Assumptions C01_unshared_drops_only_sniffed.
    the message's src/dst and written to the local connection *)
 Theorem C01_naming_table_ok :
   naming_ok start_work_conn_fields get_work_conn_args client_dispatch_args client_dispatch_lookup = true /\
-  pp_ok pp_header_fields pp_field_assigns pp_writes = true.
-Proof. vm_compute. split; reflexivity. Qed.
+  pp_ok pp_header_fields pp_field_assigns pp_writes = true /\
+  (* handshake messages (NewVisitorConnResp, StartWorkConn) are read straight from the connection that is
+     wrapped and joined afterwards: no buffering reader that could swallow the first tunnel bytes *)
+  handshake_readers_ok handshake_readers = true.
+Proof. vm_compute. repeat split; reflexivity. Qed.
 Print Assumptions C01_naming_table_ok.
 
 Theorem C01_no_cross_wiring : forall listeners tbl pc pool e ur ul wr wl c backend m,
@@ -153,7 +156,8 @@ Print Assumptions C01_proxy_protocol_header_is_true_source.
 
 (* reflective: at ALL TEN sites that build a wrapper stack (client udp/sudp included), for every flag
    combination, every wrapper's close function (the limiter's included) closes the value it wraps; at the
-   four sites that join a TCP-class tunnel libio.Join is called exactly once with the stack top on one side *)
+   four sites that join a TCP-class tunnel libio.Join is called exactly once with the stack top on one side;
+   pooled snappy objects are used only at sites that block in Join *)
 Theorem C01_close_shapes_ok : closes_ok stack_sites = true.
 Proof. vm_compute. reflexivity. Qed.
 Print Assumptions C01_close_shapes_ok.
@@ -222,6 +226,70 @@ Theorem C01_close_end_to_end_partial : forall proto_is_kcp tcp_mux, negb (proto_
   e2e_closed (e2e_run (link_signals proto_is_kcp tcp_mux) Ws Wc e2e_drain st).
 Proof. exact (fun k m H => eq_ind_r (fun b => forall Ws Wc, all_inner Ws = true -> all_inner Wc = true -> forall sched, let st := e2e_run b Ws Wc sched (e2e_init Ws Wc) in j_triggered (e_srv st) = true \/ j_triggered (e_cli st) = true -> e2e_closed (e2e_run b Ws Wc e2e_drain st)) e2e_close_partial H). Qed.
 Print Assumptions C01_close_end_to_end_partial.
+
+(* ---- the vhost muxer hands over a clean connection (https, tcpmux) ---- *)
+
+(* reflective over today's vhost.Muxer.handle / tcpmux constructor: the success hook (tcpmux without
+   passthrough: the CONNECT answer) is the only writer before the hand-off and comes BEFORE it, the hand-off is
+   the last thing handle does to the connection, both sniffing deadlines are cleared before it, and the hook
+   registered by tcpmux is sendConnectResponse writing httppkg.OkResponse() unless passthrough *)
+Theorem C01_muxer_order_ok : mux_order_ok muxer_handle_events tcpmux_hooks connect_response = true.
+Proof. vm_compute. reflexivity. Qed.
+Print Assumptions C01_muxer_order_ok.
+
+Theorem C01_muxer_deadlines_cleared : dl_at_handoff (false, false) muxer_handle_events = Some (false, false).
+Proof. vm_compute. reflexivity. Qed.
+Print Assumptions C01_muxer_deadlines_cleared.
+
+(* for ALL schedules of the muxer goroutine and the proxy goroutine (which writes the backend's chunks to the
+   same connection as soon as it owns it) and all backend chunks, what the user has received at any moment is a
+   prefix of  answer ++ backend bytes  - also when the backend speaks first *)
+Theorem C01_tcpmux_response_precedes_payload : forall R bs sched,
+  exists rest, resp_bytes R (mux_prog_of muxer_handle_events) ++ List.concat bs
+               = mh_out (mh_run R sched (mh_init (mux_prog_of muxer_handle_events) bs)) ++ rest.
+Proof. exact (fun R bs sched => mux_response_precedes_payload R (mux_prog_of muxer_handle_events) bs sched (eq_refl true <: resp_before_handoff (mux_prog_of muxer_handle_events) = true)). Qed.
+Print Assumptions C01_tcpmux_response_precedes_payload.
+
+(* the excluded order (answer after the hand-off) really interleaves: backend bytes precede the answer *)
+Theorem C01_response_after_handoff_refuted :
+  mh_out (mh_run (hx "4f4b") [TMux; TProxy; TMux] (mh_init [MHandoff; MResp] [hx "6869"])) = hx "68694f4b".
+Proof. vm_compute. reflexivity. Qed.
+Print Assumptions C01_response_after_handoff_refuted.
+
+(* ---- tcpMux on: complete-then-EOF at close needs the receiver to drain within StreamCloseTimeout ---- *)
+
+(* the relation the close-drain argument needs:  MaxStreamWindowSize x 1000 <= drain rate x StreamCloseTimeout(ms) *)
+Theorem C01_close_drain_complete : forall timeout_ms rate window inflight,
+  0 < rate -> 0 <= inflight <= window -> window * 1000 <= rate * timeout_ms ->
+  drain_delivered timeout_ms rate inflight = inflight.
+Proof. exact close_drain_complete. Qed.
+Print Assumptions C01_close_drain_complete.
+
+Theorem C01_close_drain_truncated : forall timeout_ms rate inflight,
+  0 < rate -> 0 <= timeout_ms -> timeout_ms < drain_ms inflight rate ->
+  drain_delivered timeout_ms rate inflight < inflight.
+Proof. exact close_drain_truncated. Qed.
+Print Assumptions C01_close_drain_truncated.
+
+(* reflective over today's two yamux session sites and the pinned yamux module: only KeepAliveInterval (from
+   tcpMuxKeepaliveInterval), LogOutput and MaxStreamWindowSize = 6 MiB are set, StreamCloseTimeout keeps yamux's
+   default of 5 minutes; hence every receiver draining at >= 20972 B/s gets the complete stream *)
+Theorem C01_yamux_close_config :
+  yamux_cfg_ok yamux_cfg_sites yamux_window_bytes yamux_default_close_timeout_ms = true /\
+  forall rate inflight, 20972 <= rate -> 0 <= inflight <= 6291456 ->
+    drain_delivered yamux_default_close_timeout_ms rate inflight = inflight.
+Proof.
+  exact (conj (eq_refl true <: yamux_cfg_ok yamux_cfg_sites yamux_window_bytes yamux_default_close_timeout_ms = true) default_close_drain).
+Qed.
+Print Assumptions C01_yamux_close_config.
+
+(* REFUTED below that rate (finding F-C01c, replayed with `work/h_c01 slowdrain -extra "8KB,4194304,0,up"`: the
+   backend got 2 473 984 of 4 194 304 bytes followed by a clean end of stream after 5 min 1 s): with today's
+   configuration a receiver draining at 8 KB/s loses the tail of a 4 MiB upload that was written and closed *)
+Theorem C01_close_drain_slow_receiver_refuted :
+  drain_delivered yamux_default_close_timeout_ms 8192 4194304 = 2457600 /\ 2457600 < 4194304.
+Proof. vm_compute. split; reflexivity. Qed.
+Print Assumptions C01_close_drain_slow_receiver_refuted.
 
 (* ---- non-vacuity ---- *)
 Example C01_example_codecs : (forall k, codec_lawful (toy_cipher k)) /\ codec_lawful toy_comp.
